@@ -248,6 +248,7 @@ class Type2Tag(Tag):
             # ndef data into the memory image, but jump over skip
             # bytes. If space permits, write a terminator tlv.
             offset += 2 if len(data) < 255 else 4
+            index = -1  # for an empty message
             for index, octet in enumerate(data):
                 while offset + index in skip_bytes:
                     offset += 1
